@@ -185,6 +185,10 @@ structure Est where
   /-- `std_err ** 2` -/
   var : Rat
   lv : Rat
+  /-- `false` when the covariance matrix divides by zero (`n − i + 1 = 0` for a lag number `i = n + 1`, possible
+      only for a track with missing frames that yields more distinct lags than it has points): NumPy then
+      produces `inf`/`nan` and `std_err` is not a number; `var` is meaningless in that case. -/
+  varDefined : Bool := true
 deriving Repr, DecidableEq
 
 def ptsOf (rows : List MsdRow) : List (Rat × Rat) := rows.map fun r => ((r.lag : Rat), r.msd)
@@ -200,7 +204,7 @@ def olsFromRows (rows : List MsdRow) (n : Nat) (dt : Rat) (absVar : Bool) (essMe
     let (a, b) := olsLine pts
     let v := olsVarSlope (pts.map (·.1)) (n : Rat) a b
     let toTime := 1 / (2 * dt)
-    .ok ⟨b * toTime, (if absVar then rabs v else v / essMean) * sqr toTime, a / 2⟩
+    .ok ⟨b * toTime, (if absVar then rabs v else v / essMean) * sqr toTime, a / 2, decide (rows.length ≤ n)⟩
 
 /-- `KymoTrack.estimate_diffusion("ols", max_lag)` for an explicit `max_lag`. -/
 def olsEstimate (t : List Pt) (dt : Rat) (maxLag : Int) : Except String Est :=
@@ -357,7 +361,7 @@ def olsScaleFromRows (rows : List MsdRow) (n : Nat) (dt : Rat) (essMean : Rat) :
   let (a, b) := olsLineAbs pts
   let v := olsVarSlopeAbs (pts.map (·.1)) (n : Rat) a b
   let toTime := rabs (1 / (2 * dt))
-  ⟨b * toTime, v / rabs essMean * sqr toTime, a / 2⟩
+  ⟨b * toTime, v / rabs essMean * sqr toTime, a / 2, true⟩
 
 def weightedVarScale (mc : List (Rat × Rat)) : Rat :=
   let cs := (mc.map (·.2)).sum
@@ -442,7 +446,8 @@ def handle : List String → Option String
     let L ← int? L
     some (showExcept (fun (e : Est) =>
       let s := olsScaleFromRows (msdCounts t (some L)) t.length dt 1
-      showRats [e.value, e.var, e.lv, s.value, s.var, s.lv]) (olsEstimate t dt L))
+      showRats [e.value] ++ " " ++ (if e.varDefined then showRat e.var else "nonfinite") ++ " "
+        ++ showRats [e.lv, s.value, s.var, s.lv]) (olsEstimate t dt L))
   | ["c09.cov", K, n, a, b] => do
     let K ← nat? K
     let n ← rat? n
